@@ -135,7 +135,7 @@ def configs(ctx, salt=None):
         salt = W.choose_salt()
     base = {'salt': salt, 'keys': ('a', 'b'), 'maxgen': {'a': 2, 'b': 2},
             'bad': {'a': (0,), 'b': (0, 1)}, 'late_tomb': False,
-            'boot': True, 'rep': True}
+            'boot': True, 'rep': True, 'split_cln': True}
     # one instance, the tombstone monitor lagging behind (its queue is a
     # second FIFO): the monitor names what it moves by instance.  Only plain
     # exits here: a lagging SIGABRT tombstone makes the monitor create a
@@ -144,19 +144,29 @@ def configs(ctx, salt=None):
     tomb = {'salt': salt, 'keys': ('a',), 'maxgen': {'a': 2, 'b': 0},
             'bad': {'a': (0,)}, 'late_tomb': True, 'boot': False,
             'rep': False, 'crash_points': 0}
+    # one instance, Cleanup.invoke in two steps (finish; unlink) and the
+    # manager killed between creating a container directory and linking it:
+    # a resynchronisation that falls inside the cleanup of the older
+    # generation while a newer one sits under apps/ without any link
+    cln = {'salt': salt, 'keys': ('a',), 'maxgen': {'a': 2, 'b': 0},
+           'bad': {'a': (0,)}, 'late_tomb': False, 'boot': False,
+           'rep': True, 'crash_points': 1, 'split_cln': True,
+           'fin': {'a': ('exit',)}}
     if ctx.quick:
         cfg = dict(base, fin={'a': ('exit', 'abort'), 'b': ('oom',)},
                    crash_points=2)
         tomb = dict(tomb, fin={'a': ('exit',)})
-        return [('N2x2-dev0', cfg, 7, 0, 0.25),
-                ('N1x2-tomb', tomb, 8, 1, 0.15),
-                ('N2x2-dev2', cfg, 6, 2, 0.6)]
+        return [('N2x2-dev0', cfg, 7, 0, 0.2),
+                ('N1x2-tomb', tomb, 8, 1, 0.1),
+                ('N1x2-cln', cln, 9, 1, 0.15),
+                ('N2x2-dev2', cfg, 6, 2, 0.55)]
     kinds = ('exit', 'abort', 'oom')
     cfg = dict(base, fin={'a': kinds, 'b': kinds}, crash_points=3)
     tomb = dict(tomb, fin={'a': ('exit',)})
     return [('N2x2-dev0', cfg, 10, 0, 0.2),
-            ('N1x2-tomb', tomb, 10, 2, 0.15),
-            ('N2x2-dev2', cfg, 9, 2, 0.65)]
+            ('N1x2-tomb', tomb, 10, 2, 0.1),
+            ('N1x2-cln', cln, 11, 2, 0.1),
+            ('N2x2-dev2', cfg, 9, 2, 0.6)]
 
 
 RULE = ('BFS over histories of node events: cache file put / deleted / '
@@ -168,7 +178,8 @@ RULE = ('BFS over histories of node events: cache file put / deleted / '
         'or (config N1x2-tomb) later; completion of the cleanup of a given '
         'link.  non-trivial = distinct expanded states in which two '
         'generations of one instance coexist under apps/ '
-        '(states_with_two_generations); syncs with two generations and both '
+        '(states_with_two_generations, counted over expanded states); syncs with '
+        'two generations and both '
         'iteration orders are counted separately')
 
 ASSUMPTIONS = [
@@ -263,11 +274,19 @@ def _run(ctx):
         spec = NodeSpec(cfg)
         spent_share += share
         # what an earlier configuration did not use is passed on
-        cap = ctx.budget_s * (0.7 if ctx.quick else 0.85) * spent_share - \
+        cap = ctx.budget_s * (0.45 if ctx.quick else 0.85) * spent_share - \
             (time.perf_counter() - t_start)
+
+        def progress(msg, n=name, sp=spec, last=depth):
+            ctx.log(n + ' ' + msg)
+            if msg.startswith('depth %d:' % last):
+                # the states of the last level are not expanded: do not
+                # replay each of them only to count two-generation states
+                # (states_with_two_generations then covers expanded states)
+                sp.probe = None
+
         res = statex.bfs(spec, depth, max_dev=max_dev, workers=ctx.workers,
-                         time_cap=max(cap, 5.0),
-                         progress=lambda m, n=name: ctx.log(n + ' ' + m),
+                         time_cap=max(cap, 5.0), progress=progress,
                          chunk=8, **BISIM)
         cov['states'] += res.states
         cov['transitions'] += res.transitions
